@@ -303,6 +303,28 @@ func c20(c *Ctx) {
 					}
 				}
 				r.Check(len(missing) == 0, "TABLE", fkey(fn)+"/all-sections", c.Pos(fn.Pos()), sprintf("all %d sections are delivered", len(all)), "sections never delivered to the node: "+strings.Join(missing, ","))
+				// the spec starts as a copy of the previous one: a section whose assignment can be skipped keeps the
+				// previous node's / previous configuration's value
+				r.Rule("PATH(no section survives): in getNodeSLOSpec the assignment of every NodeSLOSpec field is reached on every path to the return (the result starts as a copy of the old spec, so a skipped assignment delivers the old section - e.g. host applications of a node entry that no longer selects the node)")
+				var skippable []string
+				for _, f := range all {
+					if !stored[f] {
+						continue
+					}
+					fld := f
+					reach := an.Explore(fn, nil, nil, func(in ssa.Instruction) bool {
+						st, ok := in.(*ssa.Store)
+						if !ok {
+							return false
+						}
+						o, name, _, ok := an.FieldOf(st.Addr)
+						return ok && name == fld && strings.HasSuffix(o, "NodeSLOSpec")
+					})
+					if len(reach.Returns()) > 0 {
+						skippable = append(skippable, f)
+					}
+				}
+				r.Check(len(skippable) == 0, "PATH", fkey(fn)+"/no-section-survives", c.Pos(fn.Pos()), "every section is assigned on every path", "the assignment of these sections can be skipped, so the previous spec's value is delivered: "+strings.Join(skippable, ","))
 			}
 		}
 	}
